@@ -708,6 +708,10 @@ func DeleteBlockMeta(db kaidb.KeyValueWriter, height uint64) {
 
 func DeleteBlockPart(db kaidb.Database, height uint64) error {
 	blockMeta := ReadBlockMeta(db, height)
+	if blockMeta == nil {
+		// Without the meta the number of parts is unknown: nothing can be addressed.
+		return nil
+	}
 	for i := 0; i < int(blockMeta.BlockID.PartsHeader.Total); i++ {
 		if err := db.Delete(blockPartKey(height, i)); err != nil {
 			return err
